@@ -455,6 +455,25 @@ func byteEdit(rng *rand.Rand, s string) string {
 }
 
 func c06Canaries(r *core.Run) {
+	// anchor: the accept/reject expectations of the repository's own TestParser and the route tables of its other
+	// tests, transcribed; the reference recogniser must agree with all of them
+	anchorOK := true
+	for _, s := range []string{"/webapi", "/webapi/users", "/webapi/users/?{id}", "/{name}", "/webapi/{name-1}/{name-2: /[a-z0-9]{7, 40}/}",
+		"/webapi/{name-1}/{name-2: /[a-z0-9]{7, 40}/}/{year: regex2}-{month-day}", "/webapi/{name-1}/{name-2: /[a-z0-9]{7, 40}/}/{year: regex2}-{month-day}/{**: **, capture:  3}",
+		"/webapi/special/test@$", "/webapi/special/%_", `/webapi/article_{id: /\d+/}_{page: /[\\w]+/}.{ext: /diff|patch/}`, "/webapi/tree/{paths: **}/edit/{name: **}",
+		"/webapi/{username}/%E4%BD%A0%E5%A5%BD%E4%B8%96%E7%95%8C/test@$", "/", "/{**}"} {
+		if _, err := rmodel.Parse(s); err != nil {
+			anchorOK = false
+			r.Note("parser anchor: reference recogniser rejects " + s)
+		}
+	}
+	for _, s := range []string{"webapi", "/name}", "/{name", "/{name: [a-z0-9]{7, 40}}", ""} {
+		if _, err := rmodel.Parse(s); err == nil {
+			anchorOK = false
+			r.Note("parser anchor: reference recogniser accepts " + s)
+		}
+	}
+	r.Canary("reference recogniser agrees with the accept/reject expectations of the repository's parser tests", anchorOK)
 	want, _ := rmodel.Parse("/a/{x:  /[0-9]+/}")
 	good := parserObs{accepted: true, ast: want, str: "/a/{x: /[0-9]+/}", reOK: true, reAST: want, reStr: "/a/{x: /[0-9]+/}"}
 	r.Canary("faithful observation passes", parserVerdict("/a/{x:  /[0-9]+/}", good) == "")
